@@ -325,7 +325,7 @@ func init() {
 				}
 				oldRun(r, &he)
 				if e.Shard == 0 {
-					r.Assume("end-to-end part: two real started nodes on the in-memory wire, FIFO delivery; one datagram lost, duplicated or swapped with its successor, or the link dead from that datagram on, at every (quick: every 3rd) index of one transfer per version")
+					r.Assume("end-to-end part: two real started nodes on the in-memory wire, FIFO delivery; one datagram lost, duplicated or swapped with its successor, or the link dead from that datagram on, at every (quick: every 3rd) index of one transfer per version; the responder's accept held while 1..8 datagrams are delivered; content sizes across the inline threshold on the plain wire and through the receive path of the gnet transport (its event loop, socket options and multicore mode are outside)")
 				}
 				return
 			}
